@@ -7,38 +7,9 @@
 (* Each graph comes with unit node weights and with one weight vector over      *)
 (* {1,2,3} picked from its content, and a split of the node set into sources /  *)
 (* targets (both non-empty for n >= 2).                                          *)
-EXTENDS Integers, Sequences, FiniteSets, TLC, Json, IOUtils, SequencesExt, Fx
-CONSTANTS NU, ND, NF
+EXTENDS GraphEnum, TLC, Json, IOUtils, SequencesExt
+CONSTANTS NU, ND
 
-UPairs(n) == {p \in (1..n) \X (1..n) : p[1] < p[2]}
-DPairs(n) == {p \in (1..n) \X (1..n) : p[1] # p[2]}
-Und(n) == {[i \in 1..n |-> [j \in 1..n |-> IF i = j THEN 0 ELSE IF i < j THEN f[<<i, j>>] ELSE f[<<j, i>>]]]
-           : f \in [UPairs(n) -> {0, 1}]}
-Dir(n) == {[i \in 1..n |-> [j \in 1..n |-> IF i = j THEN 0 ELSE f[<<i, j>>]]] : f \in [DPairs(n) -> {0, 1}]}
-
-FromEdges(n, E) == [i \in 1..n |-> [j \in 1..n |-> IF <<i, j>> \in E \/ <<j, i>> \in E THEN 1 ELSE 0]]
-Path(n)   == FromEdges(n, {<<k, k + 1>> : k \in 1..(n - 1)})
-Cycle(n)  == FromEdges(n, {<<k, k + 1>> : k \in 1..(n - 1)} \cup {<<n, 1>>})
-Star(n)   == FromEdges(n, {<<1, k>> : k \in 2..n})
-Clique(n) == FromEdges(n, UPairs(n))
-Bip(a, b) == FromEdges(a + b, {<<x, a + y>> : x \in 1..a, y \in 1..b})
-Empty(n)  == FromEdges(n, {})
-DisjointUnion(G, H) ==
-  LET a == Len(G)  b == Len(H)
-  IN [i \in 1..(a + b) |-> [j \in 1..(a + b) |->
-        IF i <= a /\ j <= a THEN G[i][j] ELSE IF i > a /\ j > a THEN H[i - a][j - a] ELSE 0]]
-Fam == {Path(n) : n \in 6..NF} \cup {Cycle(n) : n \in 6..NF} \cup {Star(n) : n \in 6..NF}
-       \cup {Clique(n) : n \in 6..Min2(NF, 7)}
-       \cup {Bip(ab[1], ab[2]) : ab \in {x \in (2..4) \X (2..5) : x[1] + x[2] <= NF /\ x[1] + x[2] >= 6}}
-       \cup {DisjointUnion(Clique(4), Path(n)) : n \in 2..(NF - 4)}
-       \cup {DisjointUnion(Cycle(5), Empty(n)) : n \in 1..2}
-       \cup {DisjointUnion(Star(5), Clique(3)), DisjointUnion(Bip(2, 3), Cycle(4)),
-             DisjointUnion(Clique(5), Clique(3)), DisjointUnion(Path(3), DisjointUnion(Path(3), Empty(1)))}
-
-HashA(A) == Sum(LAMBDA i : Sum(LAMBDA j : (2 * i + 3 * j) * A[i][j], 1..Len(A)), 1..Len(A)) + Len(A)
-Wt(A) == [k \in 1..Len(A) |-> (((HashA(A) + k * k + 2 * k) \div (1 + (k % 2))) % 3) + 1]
-Ones(n) == [k \in 1..n |-> 1]
-Src(n) == 1..((n + 1) \div 2)
 Mk(blk, A, dir, w) == [blk |-> blk, n |-> Len(A), directed |-> dir, A |-> A, w |-> w,
                        unitw |-> IF w = Ones(Len(A)) THEN 1 ELSE 0,
                        src |-> SetToSeq(Src(Len(A))), tgt |-> SetToSeq((1..Len(A)) \ Src(Len(A)))]
